@@ -19,6 +19,9 @@
 //   proj <x>                         -> ret=<b> x=<xout> | <events>
 //   sat <x>                          -> sat=<b> | <events>
 //   params                           -> params eps=<bits> cosa=<bits> backoff=<bits> maxc=<k> rhos=<bits> | params none
+//   clog <0|1>                       -> ok        (chart log on/off; when on every line gets ` || <chart log>` appended)
+//   newchart <x>                     -> chart=<cid|-1>     (AtlasStateSpace::newChart)
+//   ipscan <cid>                     -> scanned=<k>  (directed inPolytope/borderCheck queries around every boundary of the chart)
 //   anchor <x>                       -> ok                            (AtlasStateSpace::anchorChart; no-op for proj)
 //   sample u | sample n <x> <d> | sample g <x> <sd>   -> s=<x> | <events>
 //   geo <interp> <from> <to>         -> ok=<b> n=<k> <states> | <events>
@@ -28,7 +31,22 @@
 //   cm2 <hasFirst> <s1> <s2>         -> v=<b> first=<x> second=<bits> | <events>   (sentinels when untouched)
 //   plan <planner> <evals> <start> <goal> -> status=<s> exact=<b> k=<len> <states>     (recording off)
 #include "common/proto.h"
+#include <dlfcn.h>
+#include <cmath>
+#include <map>
+#include <memory>
+#include <set>
 #include <ompl/base/Constraint.h>
+#include <ompl/base/SpaceInformation.h>
+#include <ompl/base/spaces/constraint/AtlasStateSpace.h>
+// AtlasChart's polytope_ / radius_ and Halfspace's u_ / usqnorm_ / rhs_ / complement_ / owner_ are private: opened for
+// this translation unit only (harness side, no source hook) so the chart log can dump them.  Everything AtlasChart.h
+// includes has been included above, so only AtlasChart.h itself is affected.
+#define private public
+#define protected public
+#include <ompl/base/spaces/constraint/AtlasChart.h>
+#undef private
+#undef protected
 #include <ompl/base/ConstrainedSpaceInformation.h>
 #include <ompl/base/spaces/RealVectorStateSpace.h>
 #include <ompl/base/spaces/constraint/ConstrainedStateSpace.h>
@@ -49,11 +67,6 @@
 #include <ompl/geometric/planners/informedtrees/BITstar.h>
 #include <ompl/util/Console.h>
 #include <ompl/util/RandomNumbers.h>
-#include <ompl/base/spaces/constraint/AtlasChart.h>
-#include <dlfcn.h>
-#include <cmath>
-#include <map>
-#include <memory>
 
 namespace ob = ompl::base;
 namespace og = ompl::geometric;
@@ -101,6 +114,41 @@ static std::string chartTok(const void *c)
         it = g_chartId.emplace(c, (int)g_chartId.size()).first;
     return std::to_string(it->second);
 }
+// ---- chart log (round 4): a *complete chronological* log of the polytope bookkeeping, nested calls included,
+// switched on by the op `clog 1`:
+//   NCH <cid> <radius>                                   first appearance of a chart in the log
+//   GH <c1> <c2> <w12:k> <w21:k> <cp> <getNeighborCount c1> <.. c2> <u1:k> <usq1> <rhs1> <u2:k> <usq2> <rhs2>
+//        AtlasChart::generateHalfspace(c1, c2); w12 = c1->psiInverse(c2 origin), w21 = c2->psiInverse(c1 origin)
+//        (recomputed with the library's own psiInverse), then the two new halfspaces as the library left them;
+//        cp = complements and owners are cross-linked as they should be
+//   IPK <cid> <u:k> <ret>                                AtlasChart::inPolytope(u) (no ignored halfspaces)
+//   BCK <cid> <v:k> <nh> { <v'_j:k> <uc_j:k> <usqc_j> <rhsc_j> }*nh
+//        AtlasChart::borderCheck(v); per halfspace j: v'_j = complement owner's psiInverse(psi(v)) (recomputed with
+//        the library's own maps) and the complement halfspace *after* the call
+static bool g_clogOn = false;
+static std::string g_clog;
+static std::set<const void *> g_announced;
+static void clTok(const std::string &s)
+{
+    g_clog += ' ';
+    g_clog += s;
+}
+template <class V>
+static void clVec(const V &x)
+{
+    for (Eigen::Index i = 0; i < x.size(); ++i)
+        clTok(vp::bits(x[i]));
+}
+static void announce(const ompl::base::AtlasChart *c)
+{
+    if (g_announced.insert(c).second)
+    {
+        clTok("NCH");
+        clTok(chartTok(c));
+        clTok(vp::bits(c->radius_));
+    }
+}
+
 struct Nest
 {
     bool top;
@@ -180,6 +228,14 @@ bool ompl::base::AtlasChart::inPolytope(CRef u, const Halfspace *i1, const Halfs
     static Fn real = nextSym<Fn>("_ZNK4ompl4base10AtlasChart10inPolytopeERKN5Eigen3RefIKNS2_6MatrixIdLin1ELi1ELi0ELin1ELi1EEELi0ENS2_11InnerStrideILi1EEEEEPKNS1_9HalfspaceESE_");
     Nest nst;
     bool r = real(this, u, i1, i2);
+    if (g_clogOn && i1 == nullptr && i2 == nullptr)
+    {
+        announce(this);
+        clTok("IPK");
+        clTok(chartTok(this));
+        clVec(u);
+        clTok(r ? "1" : "0");
+    }
     if (nst.top)
     {
         evTok("IP");
@@ -194,11 +250,71 @@ void ompl::base::AtlasChart::borderCheck(CRef v) const
     using Fn = void (*)(const AtlasChart *, CRef);
     static Fn real = nextSym<Fn>("_ZNK4ompl4base10AtlasChart11borderCheckERKN5Eigen3RefIKNS2_6MatrixIdLin1ELi1ELi0ELin1ELi1EEELi0ENS2_11InnerStrideILi1EEEEE");
     Nest nst;
+    std::vector<Eigen::VectorXd> vps;
+    if (g_clogOn)
+    {
+        Eigen::VectorXd x(n_);
+        psi(v, x);  // what checkNear computes (its verdict is ignored there too)
+        for (Halfspace *h : polytope_)
+        {
+            const AtlasChart *co = h->complement_->owner_;
+            Eigen::VectorXd vp_(co->k_);
+            co->psiInverse(x, vp_);
+            vps.push_back(vp_);
+        }
+    }
     real(this, v);
+    if (g_clogOn)
+    {
+        announce(this);
+        clTok("BCK");
+        clTok(chartTok(this));
+        clVec(v);
+        clTok(std::to_string(polytope_.size()));
+        for (size_t j = 0; j < polytope_.size(); ++j)
+        {
+            const Halfspace *c = polytope_[j]->complement_;
+            clVec(vps[j]);
+            clVec(c->u_);
+            clTok(vp::bits(c->usqnorm_));
+            clTok(vp::bits(c->rhs_));
+        }
+    }
     if (nst.top)
     {
         evTok("BC");
         evTok(chartTok(this));
+    }
+}
+void ompl::base::AtlasChart::generateHalfspace(AtlasChart *c1, AtlasChart *c2)
+{
+    using Fn = void (*)(AtlasChart *, AtlasChart *);
+    static Fn real = nextSym<Fn>("_ZN4ompl4base10AtlasChart17generateHalfspaceEPS1_S2_");
+    Nest nst;
+    real(c1, c2);
+    if (g_clogOn)
+    {
+        announce(c1);
+        announce(c2);
+        Eigen::VectorXd w12(c1->k_), w21(c2->k_);
+        c1->psiInverse(*c2->getOrigin(), w12);
+        c2->psiInverse(*c1->getOrigin(), w21);
+        const Halfspace *l1 = c1->polytope_.back(), *l2 = c2->polytope_.back();
+        bool cp = l1->complement_ == l2 && l2->complement_ == l1 && l1->owner_ == c1 && l2->owner_ == c2;
+        clTok("GH");
+        clTok(chartTok(c1));
+        clTok(chartTok(c2));
+        clVec(w12);
+        clVec(w21);
+        clTok(cp ? "1" : "0");
+        clTok(std::to_string(c1->getNeighborCount()));
+        clTok(std::to_string(c2->getNeighborCount()));
+        clVec(l1->u_);
+        clTok(vp::bits(l1->usqnorm_));
+        clTok(vp::bits(l1->rhs_));
+        clVec(l2->u_);
+        clTok(vp::bits(l2->usqnorm_));
+        clTok(vp::bits(l2->rhs_));
     }
 }
 ompl::base::AtlasChart *ompl::base::AtlasStateSpace::getChart(const StateType *state, bool force, bool *created) const
@@ -646,7 +762,10 @@ int main()
         if (t.empty())
             continue;
         g_ev.clear();
+        g_clog.clear();
         g_rec = true;
+        std::ostringstream opOut;  // the op's line is captured so that the chart log can be appended to it
+        std::streambuf *coutBuf = std::cout.rdbuf(opOut.rdbuf());
         try
         {
             const std::string &op = t[0];
@@ -663,6 +782,42 @@ int main()
                 if (atlas)
                     atlas->anchorChart(a);
                 std::cout << "ok\n";
+            }
+            else if (op == "clog" && t.size() == 2 && (t[1] == "0" || t[1] == "1"))
+            {
+                g_clogOn = t[1] == "1";
+                std::cout << "ok\n";
+            }
+            else if (op == "newchart" && t.size() == 1 + n)
+            {
+                readState(t, i, a);
+                ob::AtlasChart *ch = atlas ? atlas->newChart(a->as<ob::AtlasStateSpace::StateType>()) : nullptr;
+                std::cout << "chart=" << chartTok(ch) << "\n";
+            }
+            else if (op == "ipscan" && t.size() == 2 && vp::parseNat(t[1]))
+            {
+                // directed queries: for every halfspace of the chart, points f * u_ around its boundary (f = 1/2)
+                const ob::AtlasChart *ch = nullptr;
+                for (auto &kv : g_chartId)
+                    if (kv.second == (int)*vp::parseNat(t[1]))
+                        ch = static_cast<const ob::AtlasChart *>(kv.first);
+                size_t cnt = 0;
+                if (ch)
+                {
+                    static const double fs[] = {0.0, 0.3, 0.45, 0.4999999, 0.5, 0.5000001, 0.52, 0.6, 1.0, 3.0, -1.0};
+                    std::vector<Eigen::VectorXd> us;
+                    for (auto *hsp : ch->polytope_)
+                        us.push_back(hsp->u_);
+                    for (auto &u0 : us)
+                        for (double f : fs)
+                        {
+                            Eigen::VectorXd v = f * u0;
+                            ch->inPolytope(v);
+                            ch->borderCheck(v);
+                            ++cnt;
+                        }
+                }
+                std::cout << "scanned=" << cnt << "\n";
             }
             else if (op == "params" && t.size() == 1)
             {
@@ -804,6 +959,7 @@ int main()
                 {
                     atlas->clear();
                     g_chartId.clear();
+                    g_announced.clear();
                     atlas->anchorChart(a);
                     atlas->anchorChart(b);
                 }
@@ -846,6 +1002,15 @@ int main()
                 if (ch == ' ' || ch == '\n')
                     ch = '_';
             std::cout << "exception " << w << " |" << g_ev << "\n";
+        }
+        std::cout.rdbuf(coutBuf);
+        {
+            std::string o = opOut.str();
+            while (!o.empty() && o.back() == '\n')
+                o.pop_back();
+            if (!g_clog.empty())
+                o += " ||" + g_clog;
+            std::cout << o << "\n";
         }
     }
     css->freeState(a);
